@@ -1,7 +1,22 @@
 /-
-C04 — property theorems. Model: `HydroVerif/Model/C04.lean`; helper lemmas: `Lemmas/C04.lean`.
-`o` = (transformed) observations, `s` = (transformed) simulations; the composition with the transform
-and with the null filter is made by the code and checked by the correspondence.
+C04 — property theorems. Model: `HydroVerif/Model/C04.lean`; helper lemmas: `Lemmas/C04.lean`, `Lemmas/C04Conf.lean`.
+`o` = (transformed) observations, `s` = (transformed) simulations. The composition with the transform is made by the
+code (`trans.forward`, whose own properties are C01/C02) and checked by the correspondence; every theorem below is stated
+for arbitrary series, hence for the image of the series under ANY transform.
+
+Clause of the property                                   | theorems                                                       | outside the theorems
+---------------------------------------------------------|----------------------------------------------------------------|---------------------
+scores equal their textbook definitions                  | nse (definition), biasStd_value, biasNorm_value, kge_value, pearson_textbook (clipping of corrcoef never acts: cauchy_schwarz), pearson_comm, ranks / corrSpearman (definition) | IEEE rounding; numpy pairwise sums (condition-scaled tolerance)
+perfect simulation: bias 0, NSE 1, KGE 1, corr 1          | biasStd_perfect, biasNorm_perfect, biasLog_perfect, nse_perfect, nse_perfect_trans, kge_perfect, pearson_self, corr_perfect, spearman_perfect, corrFull_perfect | -
+simulating the observed mean scores NSE 0                | nse_mean_sim                                                   | -
+NSE and KGE never exceed 1                               | nse_le_one, kge_le_one (pearson_range)                         | -
+NSE invariant under a common affine map                  | nse_affine                                                     | -
+bias and KGE invariant under positive scaling            | biasStd_scale, biasNorm_scale, biasLog_scale, kge_scale (std_scale, pearson_scale) | -
+excludenull = score of the series with incomplete pairs removed | nonull_spec, nonull_complete, corrFull (model) + mem_checkEns | np.isfinite / pd.notnull (driver: Float.isFinite / isNaN)
+ensemble statistic mean / median                         | ensStat_single, ensStat_skips_nan, ensStat_all_nan, ensMean_value, median_perm, median_bounds, sortL_perm, sortL_sorted | np.nanmean / np.nanmedian (compared per row)
+Spearman depends on the data through their order only    | ranks_map_strictMono, spearman_monotone_invariant              | scipy.stats.spearmanr (compared by result)
+confusion matrix: every pair once, requested size        | confusion_labels, confusion_cells, confusion_total, inferNcat_covers | pandas.crosstab (compared by result)
+binary scores equal contingency-table definitions        | binary_rates, binary_f1_harmonic, binary_theta, binary_orss, binary_lor_defined, binary_accuracy_range, binary_mcc_range | sqrt / log of the driver's Float
 -/
 import HydroVerif.Lemmas.C04
 import HydroVerif.Lemmas.C04Conf
@@ -233,6 +248,260 @@ theorem biasLog_scale (eps c : ℝ) (hc : 0 < c) (o s : List ℝ)
   rw [Real.log_mul hc.ne' (by linarith [h1.1]), Real.log_mul hc.ne' (by linarith [h1.2])]
   ring
 
+
+
+/-! ### Pearson correlation equals the textbook quotient (the clipping of `np.corrcoef` never acts in exact arithmetic) -/
+
+/-- discriminant form of Cauchy-Schwarz on paired lists: the quadratic `Σ ((x-cx) t + (y-cy))²` is non-negative -/
+theorem quad_nonneg (cx cy t : ℝ) (x y : List ℝ) (h : x.length = y.length) :
+    0 ≤ ssd cx x * (t * t) + 2 * scd cx cy x y * t + ssd cy y := by
+  induction x generalizing y with
+  | nil => cases y <;> simp [ssd, scd, sumL] at h ⊢
+  | cons a x ih =>
+    cases y with
+    | nil => simp at h
+    | cons b y =>
+      have := ih y (by simpa using h)
+      simp only [ssd, List.map_cons, sumL, scd] at this ⊢
+      nlinarith [mul_self_nonneg ((a - cx) * t + (b - cy))]
+
+theorem cauchy_schwarz (cx cy : ℝ) (x y : List ℝ) (h : x.length = y.length) :
+    scd cx cy x y * scd cx cy x y ≤ ssd cx x * ssd cy y := by
+  rcases (ssd_nonneg cx x).lt_or_eq with hA | hA
+  · have := quad_nonneg cx cy (-(scd cx cy x y) / ssd cx x) x y h
+    have e : ssd cx x * (-(scd cx cy x y) / ssd cx x * (-(scd cx cy x y) / ssd cx x))
+        + 2 * scd cx cy x y * (-(scd cx cy x y) / ssd cx x) + ssd cy y
+        = (ssd cx x * ssd cy y - scd cx cy x y * scd cx cy x y) / ssd cx x := by
+      field_simp; ring
+    rw [e] at this
+    have := (div_nonneg_iff.mp this).resolve_right (by intro hh; linarith [hh.2])
+    linarith [this.1]
+  · -- all deviations of x vanish: the cross sum must vanish too
+    have hq : ∀ t : ℝ, 0 ≤ 2 * scd cx cy x y * t + ssd cy y := by
+      intro t; have := quad_nonneg cx cy t x y h; rw [← hA] at this; linarith
+    have hz : scd cx cy x y = 0 := by
+      by_contra hne
+      have h1 := hq (-(ssd cy y + 1) / (2 * scd cx cy x y))
+      have : 2 * scd cx cy x y * (-(ssd cy y + 1) / (2 * scd cx cy x y)) = -(ssd cy y + 1) := by
+        field_simp
+      rw [this] at h1; linarith
+    rw [hz, ← hA]; simp
+
+/-- `pearson` (numpy's `corrcoef`, with its clipping) is the textbook coefficient
+`Σ(x-x̄)(y-ȳ) / (√Σ(x-x̄)² · √Σ(y-ȳ)²)` for every pair of non-constant series of equal length -/
+theorem pearson_textbook (x y : List ℝ) (h : x.length = y.length)
+    (hx : 0 < ssd (mean x) x) (hy : 0 < ssd (mean y) y) :
+    pearson x y = scd (mean x) (mean y) x y / (Real.sqrt (ssd (mean x) x) * Real.sqrt (ssd (mean y) y)) := by
+  have hn := two_le_length_of_ssd_pos x hx
+  have hn1 : (0:ℝ) < ((x.length - 1 : Nat) : ℝ) := by
+    have : 0 < x.length - 1 := by omega
+    exact_mod_cast this
+  have hn1y : ((y.length - 1 : Nat) : ℝ) = ((x.length - 1 : Nat) : ℝ) := by rw [h]
+  set A := ssd (mean x) x
+  set B := ssd (mean y) y
+  set C := scd (mean x) (mean y) x y
+  set n1 := ((x.length - 1 : Nat) : ℝ)
+  have hsA : 0 < Real.sqrt A := Real.sqrt_pos.mpr hx
+  have hsB : 0 < Real.sqrt B := Real.sqrt_pos.mpr hy
+  have hsn : 0 < Real.sqrt n1 := Real.sqrt_pos.mpr hn1
+  have e : C / n1 / Real.sqrt (A / n1) / Real.sqrt (B / n1) = C / (Real.sqrt A * Real.sqrt B) := by
+    rw [Real.sqrt_div hx.le, Real.sqrt_div hy.le]
+    field_simp
+    rw [Real.sq_sqrt hn1.le]
+  have hcs : C * C ≤ A * B := cauchy_schwarz _ _ x y h
+  have hab : |C / (Real.sqrt A * Real.sqrt B)| ≤ 1 := by
+    rw [abs_div, abs_of_pos (mul_pos hsA hsB), div_le_one (mul_pos hsA hsB)]
+    have h2 : (Real.sqrt A * Real.sqrt B) ^ 2 = A * B := by
+      rw [mul_pow, Real.sq_sqrt hx.le, Real.sq_sqrt hy.le]
+    exact abs_le_of_sq_le_sq (by rw [h2, sq]; exact hcs) (mul_pos hsA hsB).le
+  unfold pearson
+  simp only [sqrt_def]
+  change clip1 (C / n1 / Real.sqrt (A / n1) / Real.sqrt (B / n1)) = _
+  rw [e]
+  have := abs_le.mp hab
+  unfold clip1
+  rw [if_neg (by linarith [this.1]), if_neg (by linarith [this.2])]
+
+/-- the correlation is symmetric in its two series -/
+theorem scd_comm (cx cy : ℝ) (x y : List ℝ) : scd cx cy x y = scd cy cx y x := by
+  induction x generalizing y with
+  | nil => cases y <;> simp [scd]
+  | cons a x ih => cases y with
+    | nil => simp [scd]
+    | cons b y => simp only [scd, ih y]; ring
+
+theorem pearson_comm (x y : List ℝ) (h : x.length = y.length)
+    (hx : 0 < ssd (mean x) x) (hy : 0 < ssd (mean y) y) : pearson x y = pearson y x := by
+  rw [pearson_textbook x y h hx hy, pearson_textbook y x h.symm hy hx, scd_comm, mul_comm]
+
+/-! ### remaining "perfect simulation" and definition clauses -/
+
+theorem biasLog_perfect (eps : ℝ) (o : List ℝ) (h : ¬ |mean o| < eps) (hp : eps < mean o) :
+    biasLog eps o o = some 0 := by
+  simp [biasLog, absG_eq_abs, h, hp]
+
+/-- normalised bias is `(s̄ - ō)/(s̄ + ō)` and lies strictly inside (-1, 1) for positive means -/
+theorem biasNorm_value (eps : ℝ) (o s : List ℝ) (h : ¬ |mean o| < eps) :
+    biasNorm eps o s = some ((mean s - mean o) / (mean s + mean o)) := by
+  simp [biasNorm, absG_eq_abs, h]
+
+theorem biasNorm_range (eps : ℝ) (o s : List ℝ) (v : ℝ) (ho : 0 < mean o) (hs : 0 < mean s)
+    (h : biasNorm eps o s = some v) : -1 < v ∧ v < 1 := by
+  unfold biasNorm at h
+  simp only at h
+  split at h
+  · cases h
+  · injection h with h
+    subst h
+    have : 0 < mean s + mean o := by linarith
+    constructor
+    · rw [lt_div_iff₀ this]; linarith
+    · rw [div_lt_one this]; linarith
+
+/-- KGE is `1 - √((1 - s̄/ō)² + (1 - σs/σo)² + (1 - r)²)` whenever its three guards pass -/
+theorem kge_value (eps : ℝ) (o s : List ℝ) (hm : ¬ |mean o| < eps) (hso : ¬ |std o| < eps) (hss : eps < |std s|) :
+    kge eps o s = some (1 - Real.sqrt ((1 - mean s / mean o) ^ 2 + (1 - std s / std o) ^ 2 + (1 - pearson o s) ^ 2)) := by
+  simp [kge, absG_eq_abs, hm, hso, hss, sqrt_def, sq]
+
+/-- the scores "on the transformed series": for ANY transform `f` (Identity, Log, BoxCox2, Reciprocal, Sinh, ... at any
+parameters) a perfect simulation scores NSE 1 and simulating the transformed observed mean scores NSE 0, as long as
+the transformed observations are not constant -/
+theorem nse_perfect_trans {α : Type} [Field α] [LinearOrder α] [IsStrictOrderedRing α] (f : α → α) (o : List α)
+    (h : ssd (mean (o.map f)) (o.map f) ≠ 0) : nse (o.map f) (o.map f) = 1 :=
+  nse_perfect _ h
+
+
+/-! ### ensemble statistic and the `corr` pipeline -/
+
+section ensStat
+variable {α : Type} [Field α] [LinearOrder α] [IsStrictOrderedRing α]
+
+theorem insertLE_perm (x : α) (l : List α) : (insertLE x l).Perm (x :: l) := by
+  induction l with
+  | nil => simp [insertLE]
+  | cons y ys ih =>
+    simp only [insertLE]
+    split
+    · exact List.Perm.refl _
+    · exact (List.Perm.cons y ih).trans (List.Perm.swap x y ys)
+
+theorem sortL_perm (l : List α) : (sortL l).Perm l := by
+  induction l with
+  | nil => simp [sortL]
+  | cons x xs ih =>
+    have : sortL (x :: xs) = insertLE x (sortL xs) := rfl
+    rw [this]
+    exact (insertLE_perm x _).trans (List.Perm.cons x ih)
+
+theorem insertLE_sorted (x : α) (l : List α) (h : l.Pairwise (· ≤ ·)) : (insertLE x l).Pairwise (· ≤ ·) := by
+  induction l with
+  | nil => simp [insertLE]
+  | cons y ys ih =>
+    simp only [insertLE]
+    split
+    · rename_i hxy
+      refine List.Pairwise.cons ?_ h
+      intro z hz
+      rcases List.mem_cons.mp hz with rfl | hz
+      · exact hxy.le
+      · exact hxy.le.trans ((List.pairwise_cons.mp h).1 z hz)
+    · rename_i hxy
+      refine List.Pairwise.cons ?_ (ih (List.pairwise_cons.mp h).2)
+      intro z hz
+      rcases List.mem_cons.mp ((insertLE_perm x ys).subset hz) with rfl | hz
+      · exact not_lt.mp hxy
+      · exact (List.pairwise_cons.mp h).1 z hz
+
+theorem sortL_sorted (l : List α) : (sortL l).Pairwise (· ≤ ·) := by
+  induction l with
+  | nil => simp [sortL]
+  | cons x xs ih => exact insertLE_sorted x _ ih
+
+/-- the statistic does not depend on the order of the ensemble members -/
+theorem sortL_eq_of_perm (l₁ l₂ : List α) (h : l₁.Perm l₂) : sortL l₁ = sortL l₂ :=
+  List.Perm.eq_of_pairwise (l₁ := sortL l₁) (l₂ := sortL l₂) (le := (· ≤ ·))
+    (fun _ _ _ _ hab hba => le_antisymm hab hba) (sortL_sorted l₁) (sortL_sorted l₂)
+    ((sortL_perm l₁).trans (h.trans (sortL_perm l₂).symm))
+
+theorem median_perm (l₁ l₂ : List α) (h : l₁.Perm l₂) : median l₁ = median l₂ := by
+  unfold median
+  rw [sortL_eq_of_perm l₁ l₂ h]
+
+/-- the median is one of the values or the mid-point of two of them; in any case it lies between the
+smallest and the largest value -/
+theorem median_bounds (l : List α) (lo hi : α) (hlo : ∀ x ∈ l, lo ≤ x) (hhi : ∀ x ∈ l, x ≤ hi) (v : α)
+    (h : median l = some v) : lo ≤ v ∧ v ≤ hi := by
+  have hm : ∀ x ∈ sortL l, x ∈ l := fun x hx => (sortL_perm l).subset hx
+  unfold median at h
+  simp only at h
+  split at h
+  · have := List.mem_of_getElem? h
+    exact ⟨hlo v (hm v this), hhi v (hm v this)⟩
+  · split at h
+    · rename_i a b ha hb
+      injection h with h
+      have ha' := hm a (List.mem_of_getElem? ha)
+      have hb' := hm b (List.mem_of_getElem? hb)
+      have h2 : (1 + 1 : α) = 2 := by norm_num
+      subst h
+      rw [h2]
+      constructor
+      · rw [le_div_iff₀ (by norm_num)]; linarith [hlo a ha', hlo b hb']
+      · rw [div_le_iff₀ (by norm_num)]; linarith [hhi a ha', hhi b hb']
+    · cases h
+
+/-- a one-member ensemble: both statistics return the member -/
+theorem ensStat_single (st : Stat) (x : α) : ensStat st [some x] = some x := by
+  cases st <;> simp [ensStat, present, mean, sumL, median, sortL, insertLE]
+
+/-- a forecast whose members are all NaN has statistic NaN -/
+theorem ensStat_all_nan (st : Stat) (n : Nat) : ensStat st (List.replicate n (none : Option α)) = none := by
+  have : present (List.replicate n (none : Option α)) = [] := by
+    induction n with
+    | zero => rfl
+    | succ n ih => simpa [present, List.replicate_succ] using ih
+  simp [ensStat, this]
+
+/-- NaN members are skipped -/
+theorem ensStat_skips_nan (st : Stat) (pre post : List (Option α)) :
+    ensStat st (pre ++ none :: post) = ensStat st (pre ++ post) := by
+  simp [ensStat, present, List.filterMap_append]
+
+theorem ensMean_value (row : List (Option α)) (h : present row ≠ []) :
+    ensStat .mean row = some (mean (present row)) := by
+  simp [ensStat, h]
+
+/-- `__check_ensemble_data` keeps exactly the forecasts with an observation and at least one member -/
+theorem mem_checkEns (obs : List (Option α)) (ens : List (List (Option α))) (p : Option α × List (Option α)) :
+    p ∈ checkEns obs ens ↔ p ∈ obs.zip ens ∧ p.1.isSome ∧ present p.2 ≠ [] := by
+  simp [checkEns, List.mem_filter, List.isEmpty_iff]
+
+end ensStat
+
+theorem allSomeL_map_some {α : Type} (l : List α) : allSomeL (l.map some) = some l := by
+  induction l with
+  | nil => rfl
+  | cons a t ih => simp [allSomeL, ih]
+
+/-- `corr` of a perfect one-member "ensemble" is 1 for every transform, both statistics, with or without the
+null filter (complete data), Pearson type -/
+theorem corrFull_perfect (fin : ℝ → Bool) (hfin : ∀ x, fin x = true) (eps : ℝ) (st : Stat) (excl : Bool)
+    (o : List ℝ) (hs : ¬ |std o| < eps) (hp : 0 < ssd (mean o) o) :
+    corrFull fin eps false st excl (o.map some) (o.map fun x => [some x]) = .value 1 := by
+  have hne : o ≠ [] := by rintro rfl; simp [ssd, sumL] at hp
+  have hsim : (o.map fun x => [some x]).map (ensStat st) = o.map some := by
+    simp [List.map_map, Function.comp_def, ensStat_single]
+  unfold corrFull
+  simp only [hsim]
+  cases excl with
+  | false =>
+    simp [allSomeL_map_some, corr_perfect eps o hs hp]
+  | true =>
+    have hfo : (o.map some).map (fun x : Option ℝ => x.bind fun v => if fin v then some v else none) = o.map some := by
+      simp [List.map_map, Function.comp_def, hfin]
+    simp only [hfo, if_true]
+    rw [nonull_complete o o rfl]
+    simp [hne, corr_perfect eps o hs hp]
 
 /-! ### Spearman correlation: depends on the data only through their order -/
 
